@@ -602,6 +602,22 @@ class ServerFacts:
         # nothing re-binds virtual_path or rest before the lookup, and no other lookup is made
         return sum("get_permissions" in ast.unparse(n) for n in wrapper.body) == 1
 
+    def get_permissions_shape(self):
+        """True only for the body as written: the decision is a function of `self.permissions` as it is at the call and
+        of the path - nothing is kept between two calls"""
+        cls = next((n for n in self.tree.body if isinstance(n, ast.ClassDef) and n.name == "User"), None)
+        fn = next((n for n in (cls.body if cls else []) if isinstance(n, ast.AsyncFunctionDef) and n.name == "get_permissions"), None)
+        if fn is None:
+            return False
+        body = [st for st in fn.body if not (isinstance(st, ast.Expr) and isinstance(getattr(st, "value", None), ast.Constant))]
+        want = [
+            "path = pathlib.PurePosixPath(path)",
+            "parents = filter(lambda p: p.is_parent(path), self.permissions)",
+            "perm = min(parents, key=lambda p: len(path.relative_to(p.path).parts), default=Permission())",
+            "return perm",
+        ]
+        return [ast.unparse(st) for st in body] == want
+
     def parse_command_shape(self):
         """True only for: `s = line.decode(encoding=self.encoding).rstrip()` (no argument: all white space),
         `cmd, _, rest = s.partition(' ')`, `return (cmd.lower(), rest)` - what `Model.Session.parseCommand` says"""
@@ -798,6 +814,8 @@ def gen_server():
     lines.append("def passiveStartLocked : Bool := %s" % ("true" if F.passive_start_locked() else "false"))
     lines.append("/-- `dispatcher` starts with `if not self.server.is_serving(): writer.close(); return` -/")
     lines.append("def dispatcherRefusesWhenNotServing : Bool := %s" % ("true" if F.dispatcher_refuses_when_not_serving() else "false"))
+    lines.append("/-- `User.get_permissions` is, as written, filter(is_parent) over `self.permissions` as it is at the call, then `min` by the depth below the entry, default allow-all: nothing is kept between calls -/")
+    lines.append("def getPermissionsAsModelled : Bool := %s" % ("true" if F.get_permissions_shape() else "false"))
     lines.append("/-- `PathPermissions` looks the permission up for the virtual path `get_paths(connection, rest)` returns -/")
     lines.append("def permissionLookupOnVirtualPath : Bool := %s" % ("true" if F.permission_lookup_on_virtual_path() else "false"))
     lines.append("/-- `parse_command` is decode, `rstrip()` without argument, `partition(' ')`, `lower()` of the first word -/")
